@@ -1,4 +1,5 @@
-//! Symbolic call context shared by the dispatch / entry-point / reply harnesses (Kani only).
+//! Call context shared by the dispatch / entry-point / reply harnesses: symbolic under Kani
+//! (`any_in`), fixed for native replays (`fixed_in`).
 
 use crate::echo::{self, Ctl, MARK_KEY};
 use crate::env::{mk_env, mk_info, World};
@@ -17,7 +18,27 @@ pub struct In {
     pub ctl: Ctl,
 }
 
+/// A fixed context for NATIVE replays of harness bodies (no solver): resets the echo log.
+pub fn fixed_in() -> In {
+    let i = In {
+        s: 7,
+        a: 8,
+        q: 9,
+        height: 11,
+        time: 12,
+        tx: Some(3),
+        c0: b'c',
+        sender0: b's',
+        coin: Some(5),
+        ctl: Ctl { fail: false, code: 0, data: 42, digit: 4 },
+    };
+    echo::reset();
+    echo::set_ctl(i.ctl);
+    i
+}
+
 /// Arbitrary context; resets the echo log and installs the outcome control.
+#[cfg(kani)]
 pub fn any_in() -> In {
     let c0: u8 = kani::any();
     let sender0: u8 = kani::any();
